@@ -213,7 +213,7 @@ pub fn monitors<P: Payload>(ctx: &Ctx, st: &mut State<P>, info: &StepInfo<P>, he
             if nrem > 0 {
                 cov.bump("boundaries_with_removed_unrecycled_slot");
                 cov.maxi("removed_unrecycled_at_once", nrem);
-                if heavy {
+                if heavy && rng.chance(1, 4) {
                     let n = push(&mut fs, mon::c12_probes(st, rng)).unwrap_or(0);
                     cov.add("refusal_probes", n);
                     obs += n;
